@@ -248,3 +248,11 @@ Theorem C02_centre_vs_sides : forall ia bal (G H : mgraph), wf G -> wf H ->
      (is_h I u = true /\ is_h I v = true)).
 Proof. exact centre_vs_sides. Qed.
 Print Assumptions C02_centre_vs_sides.
+
+(** 21. ... and it is a longest one as seen from the first centre atom: no duplicate-free chain of standard_order = 0 bonds
+        that starts in the first centre atom has more atoms than the returned path (for later centre atoms the search
+        excludes the atoms of the paths found before, as the code does) *)
+Theorem C02_lre_longest_first : forall (g : its) (n0 : N) (rest ext : list N), wf g -> In n0 (node_ids g) ->
+  zchain g n0 ext -> NoDup (n0 :: ext) -> (length (n0 :: ext) <= length (lre g (n0 :: rest)))%nat.
+Proof. exact lre_longest_first. Qed.
+Print Assumptions C02_lre_longest_first.
